@@ -19,6 +19,23 @@ CLAIMS = {
         "formula extraction (reaching definitions + inlining) compared with a specification by random interpretation; wiring/def-use rules over the AST",
         "§4 C01",
     ),
+    "C06": (
+        "Decides mutate -> refresh pairing on every abstract path of every function that edits a tree (with the obligation of the private "
+        "building helpers lifted to all their call sites), that each refresh starts low enough for what the payload method itself adjusts, that "
+        "add/remove are inverse adjustments of log_p with the membership index, and that copies are deep (payload copied for every node; "
+        "grafted subtree copied before composing).",
+        "Not decided: numerical equality and rounding drift; rustworkx semantics (trusted).",
+        "effect summaries closed over the call graph + must-follow over enumerated paths; aliasing rule; formula extraction",
+        "§4 C06",
+    ),
+    "C07": (
+        "Decides co-update of the four views of a tree (graph payload, name->index, index->name, per-clone data lists) on every path, total and "
+        "consistent relabelling, fresh labels for clashing grafted nodes, linear use of data points in every sampler move (a point removed is "
+        "added back exactly once; outliers carried across subtree extraction and re-attachment), and that samplers return trees over all points.",
+        "Not decided: forest-ness as a graph-theoretic fact for arbitrary edit sequences (rustworkx compose/subgraph trusted).",
+        "co-update / typestate rules over enumerated paths and TermFlow events; specification comparison",
+        "§4 C07",
+    ),
     "C08": (
         "Probability accounting between the two halves of each proposal: from sample() a table state x outcome -> probability is extracted "
         "(threshold chain on the uniform draw, uniform factors of the sub-draws) and compared cell by cell with what log_p() returns on the "
@@ -104,6 +121,16 @@ CLAIMS = {
         "Not decided: scipy's samplers; the Escobar-West mathematics.",
         "extraction of call arguments (TermFlow) compared with a specification; single-writer rule over the whole program",
         "§4 C13",
+    ),
+    "C14": (
+        "Decides that every memoised function is keyed on all of its parameters and reads no module-level mutable state, that the three proposal "
+        "caches carry the concentration in their key at every call site (alpha argument or a tree_dist whose eq/hash compare alpha), that the "
+        "content hashers digest every array with multiplicity and hand the hashed arrays to the body, that bodies under an order-insensitive key "
+        "are symmetric (pairwise convolution under exchange, fold under every permutation of three children), that neither the bodies write "
+        "into their inputs nor callers into cached results, and that the tree attached for a cached proposal body is the key particle's own.",
+        "Not decided: 64-bit digest collisions (probabilistic); float non-associativity under child reordering. Assumes one grid shape per process.",
+        "key-coverage and write-through (aliasing) rules over the AST; symmetry by formula extraction under argument permutation",
+        "§4 C14",
     ),
     "C15": (
         "Decides to_dict/from_dict key agreement and slot-by-slot restoration, slot exhaustiveness of every constructor path of Tree, "
